@@ -448,6 +448,8 @@ pub fn k7(dir: &str, thorough: bool, seed: u64) {
                     ctx.insert("d".to_string(), xg.set_from_pred(|_, c| half.contains(&c)));
                     ctx.insert("e".to_string(), xg.set_from_pred(|_, c| !half.contains(&c)));
                     ctx.insert("z".to_string(), xg.set_from_pred(|_, _| false));
+                    // a proper, colour-independent subset of the states
+                    ctx.insert("s".to_string(), xg.set_from_pred(|st, _| st % 2 == 1));
                     for l in ctx_lines(&xg, &ctx) {
                         let imp = if l == "ctxclear" { "ctx cleared" } else { "ctx ok" };
                         out.case(&l, imp, false);
@@ -466,9 +468,23 @@ pub fn k7(dir: &str, thorough: bool, seed: u64) {
                         planted.push(format!("(V{{x}}: {a0}) & (3{{x}} in %d%: (V{{y}}: {a0}))"));
                         planted.push(format!("3{{x}} in %d%: (!{{y}}: AX {{y}})"));
                         planted.push(format!("!{{x}} in %e%: 3{{y}} in %d%: (@{{y}}: EF {{x}})"));
+                        // the shortcut patterns evaluated first inside a foreign restricted scope, then outside it
+                        planted.push(format!("(3{{x}} in %s%: @{{x}}: (!{{y}}: AG EF {{y}})) | (3{{x}}: @{{x}}: (~%s% & (!{{y}}: AG EF {{y}})))"));
+                        planted.push(format!("(3{{x}} in %d%: @{{x}}: (!{{y}}: AX {{y}})) | ~(!{{x}}: AX {{x}})"));
                     }
                     let mut batches: Vec<Vec<String>> = planted.iter().map(|f| vec![f.clone()]).collect();
                     batches.push(planted.clone());
+                    if k >= 2 {
+                        for pat in ["AG EF", "AX"] {
+                            for dom in ["s", "d"] {
+                                batches.push(vec![
+                                    format!("3{{x}} in %{dom}%: @{{x}}: (!{{y}}: {pat} {{y}})"),
+                                    format!("~(!{{x}}: {pat} {{x}})"),
+                                    format!("!{{x}}: {pat} {{x}}"),
+                                ]);
+                            }
+                        }
+                    }
                     for formulas in batches {
                         let variant = "ext_dirty";
                         let ans = run_variant(&xg, variant, &formulas, &ctx);
